@@ -108,7 +108,7 @@ def parseOp (ts : List String) : Option Op :=
   | ["app", ps, qs] => do pure (.app (← parsePathP ps) (← parsePathP qs))
   | "appl" :: ps :: lit => do pure (.appLit (← parsePathP ps) (← parseLit lit))
   | ["resize", ps, n] => do pure (.resize (← parsePathP ps) (← n.toNat?))
-  | ["remat", ps, i, n] => do pure (.removeAt (← parsePathP ps) (← i.toNat?) (← n.toNat?))
+  | ["remat", ps, i, n] => do pure (.removeAt (← parsePathP ps) (← i.toInt?) (← n.toInt?))
   | ["rem", ps, k] => do pure (.removeKey (← parsePathP ps) (← unhex k))
   | ["clear", ps] => do pure (.clear (← parsePathP ps))
   | ["ext", ps, qs] => do pure (.extend (← parsePathP ps) (← parsePathP qs))
